@@ -63,3 +63,23 @@ Definition v_tpl : its :=
 Example valence_counterexample :
   match synrule v_tpl true with Some (rc, _, _) => valence_okb v_tpl rc | None => true end = false.
 Proof. vm_compute. reflexivity. Qed.
+
+(** C04_in_results_engine_default (no premise about _explicit_h): on dG / dH, all four template / direction combinations, the
+    boolean hypotheses hold (valence_example, default_chain_example in proof/C04_ObjectExamples.v) and the reactor's its_list
+    contains the folded reaction; C04_any_match_explicit_h_total: _explicit_h returns on EVERY ITS the reactor glues there *)
+From SK Require Import lib.Mono model.C06_Model.
+Example default_total_example :
+  forallb (fun ci : bool * bool =>
+    match rule_of (fst ci) (snd ci) dG dH with
+    | Some (rc, l, r) =>
+        let host := substrate (snd ci) dG dH in
+        match compute_mappings (api_engine (monos_on (tr_host host) (tr_pat l))) (own_opts (snd ci) true (SMember 0%N) None false) host (rc, l, r) with
+        | Some ms => negb (Nat.eqb (length ms) 0)
+                     && forallb (fun y => match glue host rc y with
+                                          | Some T => match explicit_h T with Some _ => true | None => false end
+                                          | None => true end) ms
+        | None => false
+        end
+    | None => false
+    end) [(true, false); (false, false); (true, true); (false, true)] = true.
+Proof. vm_compute. reflexivity. Qed.
